@@ -41,11 +41,13 @@ type memFile struct {
 	closes  int
 	calls   int
 	cac     int      // calls after Close
+	log     []int64  // calling goroutine of every call, in order
 	scripts sync.Map // goroutine id -> *script
 }
 
 func (f *memFile) enter() *script {
 	f.calls++
+	f.log = append(f.log, goid())
 	if f.closes > 0 {
 		f.cac++
 	}
@@ -149,6 +151,18 @@ func (f *memFile) Close() error {
 	f.enter()
 	f.closes++
 	return nil
+}
+
+func (f *memFile) logFrom(mark int) []int64 {
+	f.mu.Lock()
+	defer f.mu.Unlock()
+	return append([]int64(nil), f.log[mark:]...)
+}
+
+func (f *memFile) logLen() int {
+	f.mu.Lock()
+	defer f.mu.Unlock()
+	return len(f.log)
 }
 
 func (f *memFile) snapshot() (data []byte, closes, calls, cac int) {
